@@ -110,13 +110,14 @@ def main(tier, seed):
             try:
                 fxy, fyx, fxx = f(x, y), f(y, x), f(x, x)
                 fyz, fxz = f(y, z), f(x, z)
-            except ZeroDivisionError as ex:
-                stats["skipped_zero_division"] += 1   # numba raises on a scalar division by zero: not a finite value
+            except Exception as ex:    # noqa - any exception on a domain input (numba raises ZeroDivisionError on a scalar division by zero)
+                stats["skipped_zero_division"] += 1
                 nviol += 1
                 key = "finite:" + name
                 if key not in seen_keys and len(seen_keys) < 6:
                     seen_keys.add(key)
-                    rep.violation("%s raises ZeroDivisionError on its domain" % name, dict(metric=name, x=xl, y=yl, z=zl, dtype=np.dtype(adt).name), key=key)
+                    rep.violation("%s raises %s on its domain (%s arrays): %s" % (name, type(ex).__name__, np.dtype(adt).name, str(ex)[:200]),
+                                  dict(metric=name, x=xl, y=yl, z=zl, dtype=np.dtype(adt).name), key=key)
                 continue
             stats["evaluations"] += 5
             # the same checks with the first argument held in a caller-owned buffer that is refilled in place
@@ -127,7 +128,7 @@ def main(tier, seed):
                 bself = f(buf, y)            # identical contents: zero self-distance
                 buf[:] = z
                 bzy, byz2 = f(buf, y), f(y, buf)
-            except ZeroDivisionError:
+            except Exception:    # noqa - reported by the evaluation above when it is reproducible there
                 bself, bzy, byz2 = fxx, 0.0, 0.0
             if "zero_self" in claims and xl != yl and abs(bself) > 1e-7 * max(1.0, max(abs(v) for v in yl)):
                 nviol += 1
